@@ -3,3 +3,8 @@ check("C15",
  "Decides one structural clause of C15 only: every decoder path that repacks a standard-library image must honour its stride (necessary for 'width x height x components tightly packed samples'). Exhaustive over all library functions; the +-2 grey-level agreement with image/jpeg is value-level and not decided.",
  "trusted: go/types+go/ssa of x/tools v0.50.0; the image package's documented Pix/Stride layout",
  "DESIGN.md §4 C15")
+check("C18",
+ "allocation-site points-to + write-effect analysis over SSA (who may write shared memory)",
+ "Decides the schedule-independent obligation the property itself names, in an alias-aware form: in code reachable from any exported entry point no store/copy/append/map-update/external write may target (1) a package-level variable or anything reachable from one, (2) a codec instance or anything reachable from it, (3) the caller's parameters object except guarded normalisation; and library code uses no goroutines/sync/atomic/unsafe/reflect/cgo. Exhaustive over the resolved program (every effect site is an obligation). It does not execute schedules or a race detector, so it proves absence of shared writes, not equality of results.",
+ "trusted: go/ssa + VTA call graph (CHA in thorough), frozen effect table for ~40 standard-library callees, context-insensitive heap abstraction with separate init/run contexts; one reviewed exception (init-guarded VLC table regeneration) with a structural keep-alive condition",
+ "DESIGN.md §4 C18, §3.2")
